@@ -676,3 +676,406 @@ Proof.
                  | rewrite set_heuristics_nonwidth by reflexivity];
     reflexivity.
 Qed.
+
+(* ------------------------------------------------------------------ *)
+(* width heuristics                                                   *)
+(* ------------------------------------------------------------------ *)
+
+(* invariant kept by every operation: an explicitly set width is at most max_width, an unset width is the
+   value prescribed by use_small_heuristics for the current max_width *)
+Definition WInv (c : config) : Prop :=
+  forall w, is_width w = true ->
+    (was_set (c w) = true -> val (c w) <= val (c MaxWidth)) /\
+    (was_set (c w) = false ->
+       val (c w) = heuristic_value (val (c UseSmallHeuristics)) (val (c MaxWidth)) w).
+
+Lemma get_width_value_set_le : forall mw ov hv, get_width_value mw true ov hv <= mw.
+Proof.
+  intros mw ov hv; unfold get_width_value; cbn [negb].
+  destruct (N.ltb_spec mw ov); lia.
+Qed.
+
+Lemma get_width_value_set_id : forall mw ov hv, ov <= mw -> get_width_value mw true ov hv = ov.
+Proof.
+  intros mw ov hv H; unfold get_width_value; cbn [negb].
+  destruct (N.ltb_spec mw ov); [lia | reflexivity].
+Qed.
+
+Lemma get_width_value_set_min : forall mw ov hv, get_width_value mw true ov hv = N.min ov mw.
+Proof.
+  intros mw ov hv; unfold get_width_value; cbn [negb].
+  destruct (N.ltb_spec mw ov); lia.
+Qed.
+
+Lemma set_heuristics_WInv : forall c, WInv (set_heuristics c).
+Proof.
+  intros c w Hw.
+  rewrite (set_heuristics_width c w Hw).
+  rewrite (set_heuristics_nonwidth c MaxWidth), (set_heuristics_nonwidth c UseSmallHeuristics) by reflexivity.
+  cbn [set_val was_set val]. split; intros Hs; rewrite Hs.
+  - apply get_width_value_set_le.
+  - reflexivity.
+Qed.
+
+Lemma WInv_frame : forall c c', (forall o, hkey o = true -> c' o = c o) -> WInv c -> WInv c'.
+Proof.
+  intros c c' H Hc w Hw.
+  assert (E1 : hkey w = true) by (unfold hkey; rewrite Hw; reflexivity).
+  rewrite (H w E1), (H MaxWidth), (H UseSmallHeuristics) by reflexivity.
+  apply Hc; exact Hw.
+Qed.
+
+Lemma op_WInv : forall k e c, WInv c -> WInv (hook k (upd c k e)).
+Proof.
+  intros k e c Hc. destruct (hkey k) eqn:Ek.
+  - rewrite hook_hkey by exact Ek. apply set_heuristics_WInv.
+  - apply (WInv_frame c); [|exact Hc].
+    intros o Ho. rewrite hook_not_hkey by assumption.
+    apply upd_other. intros E; subst o; rewrite Ek in Ho; discriminate Ho.
+Qed.
+
+Lemma apply_inline_WInv : forall l c, WInv c -> WInv (apply_inline l c).
+Proof.
+  induction l as [|[k v] l IH]; intros c Hc; [exact Hc|].
+  rewrite apply_inline_cons. apply IH. unfold override_value. apply op_WInv; exact Hc.
+Qed.
+
+Lemma on_some_WInv : forall x k c, WInv c -> WInv (on_some x (cli_setter k) c).
+Proof. intros [v|] k c Hc; cbn [on_some]; [unfold cli_setter; apply op_WInv; exact Hc | exact Hc]. Qed.
+
+Lemma apply_flags_WInv : forall o c, WInv c -> WInv (apply_flags o c).
+Proof.
+  intros o c Hc; unfold apply_flags.
+  apply on_some_WInv.
+  assert (H1 : WInv (if c_unstable o then cli_setter UnstableFeatures 1 c else setter UnstableFeatures 0 c)).
+  { destruct (c_unstable o); [unfold cli_setter | unfold setter]; apply op_WInv; exact Hc. }
+  assert (H3 := on_some_WInv (c_style_edition o) StyleEdition _ (on_some_WInv (c_edition o) Edition _ H1)).
+  destruct (c_backup o).
+  - unfold cli_setter at 1. apply op_WInv. destruct (c_check o).
+    + unfold cli_setter at 1; apply op_WInv; exact H3.
+    + apply on_some_WInv; exact H3.
+  - destruct (c_check o).
+    + unfold cli_setter at 1; apply op_WInv; exact H3.
+    + apply on_some_WInv; exact H3.
+Qed.
+
+Lemma set_alias_WInv : forall old new conv c, hkey new = false -> WInv c -> WInv (set_alias old new conv c).
+Proof.
+  intros old new conv c Hn Hc. apply (WInv_frame c); [|exact Hc].
+  intros o Ho. apply set_alias_other. intros E; subst o; rewrite Hn in Ho; discriminate Ho.
+Qed.
+
+Lemma ffpc_WInv : forall nightly t c, WInv (fill_from_parsed_config nightly t c).
+Proof.
+  intros nightly t c; unfold fill_from_parsed_config, set_version, set_hide_parse_errors,
+    set_fn_args_layout, set_merge_imports.
+  repeat (apply set_alias_WInv; [reflexivity|]). apply set_heuristics_WInv.
+Qed.
+
+Lemma default_WInv : forall b, WInv (default_with_style_edition b).
+Proof.
+  intros b w Hw; split; intros Hs.
+  - discriminate Hs.
+  - destruct w; try (bdisc Hw); vm_compute; reflexivity.
+Qed.
+
+Lemma resolve_WInv : forall nightly file o, WInv (resolve nightly file o).
+Proof.
+  intros nightly file o; unfold resolve, apply_to. apply apply_inline_WInv, apply_flags_WInv.
+  destruct file as [t|]; [apply ffpc_WInv | apply default_WInv].
+Qed.
+
+(* arithmetic of WidthHeuristics::scaled *)
+Lemma wh_scaled_small : forall mw w, is_width w = true -> mw <= 100 -> wh_scaled mw w = default_width w.
+Proof.
+  intros mw w Hw Hm; unfold wh_scaled, ratio10.
+  destruct (N.ltb_spec 100 mw); [lia|].
+  destruct w; try (bdisc Hw); vm_compute; reflexivity.
+Qed.
+
+Lemma wh_scaled_big_le : forall mw w, is_width w = true -> 100 < mw -> wh_scaled mw w <= mw.
+Proof.
+  intros mw w Hw Hm; unfold wh_scaled, ratio10, round_div.
+  destruct (N.ltb_spec 100 mw); [|lia].
+  set (r := (2 * (mw * 10) + 100) / (2 * 100)).
+  assert (Hr : 2 * 100 * r <= 2 * (mw * 10) + 100) by (apply N.mul_div_le; lia).
+  assert (Hd : default_width w <= 70) by (destruct w; try (bdisc Hw); vm_compute; discriminate).
+  set (q := (2 * (default_width w * r) + 10) / (2 * 10)).
+  assert (Hq : 2 * 10 * q <= 2 * (default_width w * r) + 10) by (apply N.mul_div_le; lia).
+  assert (Hdr : default_width w * r <= 70 * r) by (apply N.mul_le_mono_r; exact Hd).
+  lia.
+Qed.
+
+Lemma scaled_le_iff : forall mw w, is_width w = true -> (wh_scaled mw w <= mw <-> default_width w <= mw).
+Proof.
+  intros mw w Hw. destruct (N.le_gt_cases mw 100) as [H|H].
+  - rewrite wh_scaled_small by assumption. tauto.
+  - assert (Hd : default_width w <= 70) by (destruct w; try (bdisc Hw); vm_compute; discriminate).
+    split; intros _; [lia | apply wh_scaled_big_le; assumption].
+Qed.
+
+(* --config pairs none of which is max_width: an explicitly set width ends as min(value, max_width) *)
+Lemma op_width_entry : forall k e c w, is_width w = true ->
+  hook k (upd c k e) w
+  = let c0 := upd c k e in
+    if hkey k
+    then set_val (c0 w) (get_width_value (val (c0 MaxWidth)) (was_set (c0 w)) (val (c0 w))
+                           (heuristic_value (val (c0 UseSmallHeuristics)) (val (c0 MaxWidth)) w))
+    else c0 w.
+Proof.
+  intros k e c w Hw; cbv zeta. destruct (hkey k) eqn:Ek.
+  - rewrite hook_hkey by exact Ek. apply set_heuristics_width; exact Hw.
+  - apply hook_not_hkey; [exact Ek | unfold hkey; rewrite Hw; reflexivity].
+Qed.
+
+Lemma override_max_width_other : forall k v c, k <> MaxWidth ->
+  val (override_value k v c MaxWidth) = val (c MaxWidth).
+Proof.
+  intros k v c H; unfold override_value. rewrite op_plain by reflexivity.
+  rewrite (opt_eqb_neq MaxWidth k) by (intros E; apply H; symmetry; exact E). reflexivity.
+Qed.
+
+Lemma apply_inline_width_NM : forall w, is_width w = true ->
+  forall l c, nodup_opts (keys l) = true -> mem_opt MaxWidth (keys l) = false ->
+  (was_set (c w) = true -> val (c w) <= val (c MaxWidth)) ->
+  val (apply_inline l c MaxWidth) = val (c MaxWidth) /\
+  match lookup l w with
+  | Some v => val (apply_inline l c w) = N.min v (val (c MaxWidth))
+  | None => was_set (c w) = true -> val (apply_inline l c w) = val (c w)
+  end.
+Proof.
+  intros w Hw l; induction l as [|[k v] l IH]; intros c Hn Hm Hc.
+  - cbn [lookup apply_inline fold_left]. split; [reflexivity | intros _; reflexivity].
+  - cbn [keys map fst nodup_opts mem_opt] in Hn, Hm.
+    apply andb_true_iff in Hn; destruct Hn as [Hk Hn].
+    apply negb_true_iff in Hk. apply lookup_none_iff in Hk.
+    apply orb_false_iff in Hm; destruct Hm as [Hkm Hm].
+    assert (Hkne : k <> MaxWidth) by (intros E; subst k; rewrite opt_eqb_refl in Hkm; discriminate Hkm).
+    rewrite apply_inline_cons, lookup_cons.
+    set (c1 := override_value k v c).
+    assert (Hmw : val (c1 MaxWidth) = val (c MaxWidth)) by (apply override_max_width_other; exact Hkne).
+    assert (Hc0mw : val (upd c k (mk_entry true v (was_set_cli (c k))) MaxWidth) = val (c MaxWidth)).
+    { rewrite upd_other by (intros E; apply Hkne; symmetry; exact E). reflexivity. }
+    destruct (opt_eq_dec k w) as [E|E].
+    + (* this pair sets w *)
+      subst k. rewrite opt_eqb_refl.
+      assert (Hw1 : c1 w = mk_entry true (N.min v (val (c MaxWidth))) (was_set_cli (c w))).
+      { unfold c1, override_value. rewrite (op_width_entry w _ c w Hw); cbv zeta.
+        assert (Ehk : hkey w = true) by (unfold hkey; rewrite Hw; reflexivity).
+        rewrite Ehk, upd_same, Hc0mw. cbn [set_val was_set val was_set_cli].
+        rewrite get_width_value_set_min. reflexivity. }
+      assert (Hc1 : was_set (c1 w) = true -> val (c1 w) <= val (c1 MaxWidth)).
+      { intros _. rewrite Hw1, Hmw. cbn [val]. lia. }
+      destruct (IH c1 Hn Hm Hc1) as [IH1 IH2]. rewrite Hk in IH2.
+      split; [rewrite IH1; exact Hmw|].
+      rewrite IH2 by (rewrite Hw1; reflexivity). rewrite Hw1; reflexivity.
+    + rewrite (opt_eqb_neq k w) by exact E.
+      (* the entry of w: unchanged when it was set *)
+      assert (Hws : was_set (c1 w) = was_set (c w)).
+      { unfold c1, override_value. rewrite op_ws.
+        rewrite (opt_eqb_neq w k) by (intros E2; apply E; symmetry; exact E2). reflexivity. }
+      assert (Hval : was_set (c w) = true -> val (c1 w) = val (c w)).
+      { intros Hs. unfold c1, override_value. rewrite (op_width_entry k _ c w Hw); cbv zeta.
+        assert (Hcw : upd c k (mk_entry true v (was_set_cli (c k))) w = c w).
+        { apply upd_other. intros E2; apply E; symmetry; exact E2. }
+        destruct (hkey k); [|rewrite Hcw; reflexivity].
+        rewrite Hcw, Hc0mw, Hs. cbn [set_val val].
+        apply get_width_value_set_id. apply Hc; exact Hs. }
+      assert (Hc1 : was_set (c1 w) = true -> val (c1 w) <= val (c1 MaxWidth)).
+      { rewrite Hws. intros Hs. rewrite (Hval Hs), Hmw. apply Hc; exact Hs. }
+      destruct (IH c1 Hn Hm Hc1) as [IH1 IH2].
+      split; [rewrite IH1; exact Hmw|].
+      destruct (lookup l w) as [v'|].
+      * rewrite IH2, Hmw; reflexivity.
+      * intros Hs. rewrite IH2 by (rewrite Hws; exact Hs). apply Hval; exact Hs.
+Qed.
+
+(* ------------------------------------------------------------------ *)
+(* closed forms for the resolved configuration                        *)
+(* ------------------------------------------------------------------ *)
+
+Lemma or_else_assoc : forall (A : Type) (a b c : option A), or_else (or_else a b) c = or_else a (or_else b c).
+Proof. intros A [x|] b c; reflexivity. Qed.
+
+Lemma or_else_none_r : forall (A : Type) (a : option A), or_else a None = a.
+Proof. intros A [x|]; reflexivity. Qed.
+
+Lemma se_base_eq : forall o t,
+  base_style_edition (or_else (cli_style_edition o) (lookup t StyleEdition))
+                     (or_else (cli_version o) (lookup t Version))
+                     (or_else (cli_edition o) (lookup t Edition)) = se_base o t.
+Proof.
+  intros o t; unfold se_base, view_Sraw, cli_style_edition, cli_edition, cli_version; cbn [flag_value or_else].
+  rewrite !or_else_assoc; reflexivity.
+Qed.
+
+Lemma resolve_some_unfold : forall nightly t o,
+  resolve nightly (Some t) o
+  = apply_inline (c_inline o)
+      (apply_flags o (fill_from_parsed_config nightly t (default_with_style_edition (se_base o t)))).
+Proof.
+  intros nightly t o; unfold resolve, apply_to, to_parsed_config, default_for_possible_style_edition.
+  rewrite se_base_eq; reflexivity.
+Qed.
+
+Lemma ffpc_nil : forall nightly b,
+  ceq (fill_from_parsed_config nightly [] (default_with_style_edition b)) (default_with_style_edition b).
+Proof. intros nightly b x; destruct x; vm_compute; reflexivity. Qed.
+
+Lemma resolve_none_ceq : forall nightly o, ceq (resolve nightly None o) (resolve nightly (Some []) o).
+Proof.
+  intros nightly o; unfold resolve, to_parsed_config. cbn [lookup]. rewrite !or_else_none_r.
+  apply apply_to_ext. intros x; symmetry; apply ffpc_nil.
+Qed.
+
+Lemma resolve_file_table : forall nightly f o, ceq (resolve nightly f o) (resolve nightly (Some (file_table f)) o).
+Proof. intros nightly [t|] o; [intros x; reflexivity | apply resolve_none_ceq]. Qed.
+
+Lemma resolve_ws_some : forall nightly t o x,
+  was_set (resolve nightly (Some t) o x) = mem_opt x (keys (c_inline o)) || is_some (file_view nightly t x).
+Proof.
+  intros nightly t o x.
+  rewrite resolve_some_unfold, apply_inline_ws, apply_flags_ws, ffpc_ws, fill_values_ws; reflexivity.
+Qed.
+
+Lemma precedence_some : forall nightly t o x,
+  nodup_opts (keys (c_inline o)) = true -> plain x = true ->
+  val (resolve nightly (Some t) o x)
+  = match view_S nightly o t x with Some v => v | None => default (se_base o t) x end.
+Proof.
+  intros nightly t o x Hn Hp.
+  rewrite resolve_some_unfold, apply_inline_val_plain by assumption.
+  rewrite apply_flags_val, ffpc_plain, fill_values_val by exact Hp.
+  unfold view_S. destruct (lookup (c_inline o) x); cbn [or_else]; [reflexivity|].
+  destruct (flag_value o x); cbn [or_else]; reflexivity.
+Qed.
+
+Lemma alias_some : forall old new conv, alias_pair old new conv ->
+  forall nightly t o, nodup_opts (keys (c_inline o)) = true ->
+  val (resolve nightly (Some t) o new)
+  = alias_spec (view_A nightly o t) old new conv (default (se_base o t) new).
+Proof.
+  intros old new conv Hp nightly t o Hn.
+  rewrite resolve_some_unfold, (apply_inline_alias _ _ _ Hp) by exact Hn.
+  set (b := se_base o t).
+  set (c1 := fill_from_parsed_config nightly t (default_with_style_edition b)).
+  assert (Hf : apply_flags o c1 new = c1 new) by (rewrite apply_flags_entry; destruct Hp; reflexivity).
+  rewrite Hf. unfold c1. rewrite (ffpc_alias _ _ _ Hp); cbv zeta.
+  rewrite !fill_values_ws.
+  unfold alias_spec, view_A.
+  destruct (lookup (c_inline o) new) as [v|]; cbn [or_else]; [reflexivity|].
+  pose proof (fill_values_val nightly t b new) as Vn.
+  pose proof (fill_values_val nightly t b old) as Vo.
+  pose proof (fill_values_ws nightly t b new) as Wn.
+  destruct (file_view nightly t new) as [vn|]; cbn [is_some negb andb] in *.
+  - rewrite andb_false_r. rewrite Wn. exact Vn.
+  - rewrite andb_true_r.
+    destruct (file_view nightly t old) as [vo|]; cbn [is_some] in *.
+    + cbn [set_val was_set val]. rewrite Wn, Vo.
+      destruct (lookup (c_inline o) old); reflexivity.
+    + rewrite Wn, Vn. destruct (lookup (c_inline o) old); reflexivity.
+Qed.
+
+Lemma ffpc_width : forall nightly t c w, is_width w = true ->
+  fill_from_parsed_config nightly t c w = set_heuristics (fill_values nightly t c) w.
+Proof.
+  intros nightly t c w Hw.
+  unfold fill_from_parsed_config, set_version, set_hide_parse_errors, set_fn_args_layout, set_merge_imports.
+  rewrite !set_alias_other by (intros E; subst w; discriminate Hw). reflexivity.
+Qed.
+
+Lemma flag_value_width : forall o w, is_width w = true -> flag_value o w = None.
+Proof. intros o w Hw; destruct w; try reflexivity; bdisc Hw. Qed.
+
+Lemma width_NM_some : forall nightly t o w,
+  nodup_opts (keys (c_inline o)) = true -> mem_opt MaxWidth (keys (c_inline o)) = false ->
+  is_width w = true ->
+  let c := resolve nightly (Some t) o in
+  val (c w) = match view_A nightly o t w with
+              | Some v => N.min v (val (c MaxWidth))
+              | None => heuristic_value (val (c UseSmallHeuristics)) (val (c MaxWidth)) w
+              end.
+Proof.
+  intros nightly t o w Hn Hm Hw c.
+  pose proof (resolve_WInv nightly (Some t) o) as HW. fold c in HW.
+  pose proof (resolve_ws_some nightly t o w) as Hws. fold c in Hws.
+  unfold c in *. rewrite resolve_some_unfold in *.
+  set (b := se_base o t) in *.
+  set (c1 := fill_from_parsed_config nightly t (default_with_style_edition b)) in *.
+  set (c2 := apply_flags o c1) in *.
+  assert (HW2 : WInv c2) by (apply apply_flags_WInv, ffpc_WInv).
+  destruct (apply_inline_width_NM w Hw (c_inline o) c2 Hn Hm (proj1 (HW2 w Hw))) as [Hmw Hl].
+  unfold view_A.
+  destruct (lookup (c_inline o) w) as [v|] eqn:El; cbn [or_else].
+  - rewrite Hl, Hmw; reflexivity.
+  - apply lookup_none_iff in El. rewrite El in Hws. cbn [orb] in Hws.
+    destruct (file_view nightly t w) as [v|] eqn:Ef; cbn [is_some] in Hws.
+    + assert (Hs2 : was_set (c2 w) = true).
+      { unfold c2, c1. rewrite apply_flags_ws, ffpc_ws, fill_values_ws, Ef; reflexivity. }
+      rewrite (Hl Hs2), Hmw.
+      unfold c2. rewrite !apply_flags_val, (flag_value_width o w Hw). cbn [flag_value].
+      unfold c1. rewrite (ffpc_width _ _ _ _ Hw), (ffpc_plain _ _ _ MaxWidth) by reflexivity.
+      rewrite (set_heuristics_width _ _ Hw). cbn [set_val val].
+      rewrite fill_values_ws, Ef. cbn [is_some]. rewrite get_width_value_set_min.
+      rewrite (fill_values_val nightly t b w), Ef. reflexivity.
+    + apply (proj2 (HW w Hw)); exact Hws.
+Qed.
+
+Lemma file_view_nightly : forall t x, file_view true t x = lookup t x.
+Proof. intros t x; unfold file_view; destruct (lookup t x); reflexivity. Qed.
+
+Lemma se_base_expand : forall o t,
+  se_base o t
+  = match first_some [lookup (c_inline o) StyleEdition; c_style_edition o; lookup t StyleEdition] with
+    | Some s => s
+    | None =>
+        match first_some [lookup (c_inline o) Version; lookup t Version] with
+        | Some v => of_version v
+        | None =>
+            match first_some [lookup (c_inline o) Edition; c_edition o; lookup t Edition] with
+            | Some e => e
+            | None => SE2015
+            end
+        end
+    end.
+Proof.
+  intros o t; unfold se_base, view_Sraw, base_style_edition; cbn [flag_value first_some].
+  destruct (lookup (c_inline o) StyleEdition); [reflexivity|].
+  destruct (c_style_edition o); [reflexivity|].
+  destruct (lookup t StyleEdition); [reflexivity|]. cbn [or_else].
+  destruct (lookup (c_inline o) Version); [reflexivity|].
+  destruct (lookup t Version); [reflexivity|]. cbn [or_else].
+  destruct (lookup (c_inline o) Edition); [reflexivity|].
+  destruct (c_edition o); [reflexivity|].
+  destruct (lookup t Edition); reflexivity.
+Qed.
+
+Lemma se_precedence_lemma : forall t o,
+  nodup_opts (keys (c_inline o)) = true ->
+  effective (resolve true (Some t) o) StyleEdition
+  = match first_some [lookup (c_inline o) StyleEdition; c_style_edition o; lookup t StyleEdition] with
+    | Some s => s
+    | None =>
+        match first_some [lookup (c_inline o) Version; lookup t Version] with
+        | Some v => of_version v
+        | None =>
+            match first_some [lookup (c_inline o) Edition; c_edition o; lookup t Edition] with
+            | Some e => collapse e
+            | None => SE2015
+            end
+        end
+    end.
+Proof.
+  intros t o Hn; unfold effective. rewrite precedence_some by (exact Hn || reflexivity).
+  rewrite se_base_expand. unfold view_S. rewrite file_view_nightly. cbn [flag_value first_some].
+  destruct (lookup (c_inline o) StyleEdition); [reflexivity|].
+  destruct (c_style_edition o); [reflexivity|].
+  destruct (lookup t StyleEdition); [reflexivity|]. cbn [or_else].
+  destruct (lookup (c_inline o) Version) as [v|].
+  { unfold of_version; destruct (v =? V_TWO); reflexivity. }
+  destruct (lookup t Version) as [v|].
+  { unfold of_version; destruct (v =? V_TWO); reflexivity. }
+  destruct (lookup (c_inline o) Edition); [reflexivity|].
+  destruct (c_edition o); [reflexivity|].
+  destruct (lookup t Edition); reflexivity.
+Qed.
